@@ -221,15 +221,22 @@ func (p *strPred) addAtom(a *atom) *formula {
 
 // translatePredicate turns `func V(s string) error` into reject(s).
 func translatePredicate(pk *packages.Package, d *ast.FuncDecl) *strPred {
+	return translatePredicateWith(pk, d, nil)
+}
+
+// translatePredicateWith: declOf resolves helper predicates of the same package (func(s string) bool whose body is a
+// single return): a call h(s) is translated as the returned expression.
+func translatePredicateWith(pk *packages.Package, d *ast.FuncDecl, declOf func(*types.Func) *ast.FuncDecl) *strPred {
 	p := &strPred{reject: fFalse()}
 	if d == nil || d.Type.Params == nil || len(d.Type.Params.List) != 1 || len(d.Type.Params.List[0].Names) != 1 {
 		p.problems = append(p.problems, "the predicate does not have the form func(s string) error")
 		return p
 	}
 	sObj := pk.TypesInfo.Defs[d.Type.Params.List[0].Names[0]]
+	sAlias := map[types.Object]bool{sObj: true} // the string under test, also as the parameter of an inlined helper
 	isS := func(e ast.Expr) bool {
 		id, ok := ast.Unparen(e).(*ast.Ident)
-		return ok && pk.TypesInfo.Uses[id] == sObj
+		return ok && sAlias[pk.TypesInfo.Uses[id]]
 	}
 	env := map[types.Object]*formula{}
 	segVars := map[types.Object]byte{} // range variable over strings.Split(s, sep)
@@ -333,6 +340,22 @@ func translatePredicate(pk *packages.Package, d *ast.FuncDecl) *strPred {
 				}
 			}
 		case *ast.CallExpr:
+			// a helper predicate of the package applied to s: its single returned expression
+			if declOf != nil && len(x.Args) == 1 && isS(x.Args[0]) {
+				if h := callee(pk, x); h != nil && h.Pkg() == pk.Types {
+					if hd := declOf(h); hd != nil && hd.Body != nil && len(hd.Body.List) == 1 && hd.Type.Params != nil && len(hd.Type.Params.List) == 1 && len(hd.Type.Params.List[0].Names) == 1 {
+						if ret, ok := hd.Body.List[0].(*ast.ReturnStmt); ok && len(ret.Results) == 1 {
+							po := pk.TypesInfo.Defs[hd.Type.Params.List[0].Names[0]]
+							if !sAlias[po] {
+								sAlias[po] = true
+								f := cond(ret.Results[0])
+								delete(sAlias, po)
+								return f
+							}
+						}
+					}
+				}
+			}
 			if name, ok := strCall(x); ok && len(x.Args) == 2 && isS(x.Args[0]) {
 				switch name {
 				case "Contains", "HasPrefix", "HasSuffix", "ContainsAny":
@@ -417,6 +440,55 @@ func translatePredicate(pk *packages.Package, d *ast.FuncDecl) *strPred {
 					return false
 				}
 			case *ast.SwitchStmt:
+				if x.Tag == nil && x.Init == nil {
+					// tagless switch = if / else-if chain: clause i applies under guard & !c1 & ... & !c(i-1)
+					g := guard
+					var def *ast.CaseClause
+					for _, cs := range x.Body.List {
+						cc := cs.(*ast.CaseClause)
+						if cc.List == nil {
+							def = cc
+							continue
+						}
+						f := fFalse()
+						for _, e := range cc.List {
+							fe := cond(e)
+							if fe == nil {
+								p.problems = append(p.problems, "condition not in the supported string-predicate subset: "+exprString(e))
+								return false
+							}
+							f = fOr(f, fe)
+						}
+						switch {
+						case len(cc.Body) == 1 && returnsNonNilError(pk, cc.Body):
+							p.reject = fOr(p.reject, fAnd(g, f))
+							if len(cc.List) == 1 && isEmptinessTest(cond(cc.List[0])) && g.op == 't' {
+								emptinessRejected = true
+							}
+						case len(cc.Body) == 1 && isReturnNil(pk, cc.Body[0]):
+							// accepted under g & f
+						default:
+							p.problems = append(p.problems, "switch clause that is neither `return <error>` nor `return nil` at "+pk.Fset.Position(cc.Pos()).String())
+							return false
+						}
+						g = fAnd(g, fNot(f))
+					}
+					if def != nil {
+						switch {
+						case len(def.Body) == 1 && returnsNonNilError(pk, def.Body):
+							p.reject = fOr(p.reject, g)
+							return true
+						case len(def.Body) == 1 && isReturnNil(pk, def.Body[0]):
+							return true
+						case len(def.Body) == 0:
+						default:
+							p.problems = append(p.problems, "switch default that is neither a return nor empty")
+							return false
+						}
+					}
+					guard = g
+					continue
+				}
 				// switch seg { case ".", "..": return err }
 				id, ok := ast.Unparen(x.Tag).(*ast.Ident)
 				if !ok || x.Init != nil {
@@ -470,6 +542,11 @@ func translatePredicate(pk *packages.Package, d *ast.FuncDecl) *strPred {
 	}
 	stmts(d.Body.List, fTrue())
 	return p
+}
+
+func isReturnNil(pk *packages.Package, s ast.Stmt) bool {
+	ret, ok := s.(*ast.ReturnStmt)
+	return ok && len(ret.Results) == 1 && isNil(pk, ret.Results[0])
 }
 
 // safeIncludeName is the reference language: non-empty, does not start with '/',
